@@ -200,16 +200,40 @@ def job(j):
     return n, viols
 
 
+def race_pass(ctx: core.Ctx):
+    """'Every gateway state' includes the middle of a wake-up flush: a send that lands while the listener is
+    suspended in a transport write must still end up written. Reuses the schedule explorer and scenario of C09
+    (every schedule with <= 2 early firings); a held message that a newer one for the same key supersedes
+    counts as delivered by the newer one."""
+    from .. import explore
+    from . import c09
+
+    cfgs = [
+        {"version": "2.2", "parked": [c09.A], "senders": [[c09.A]]},
+        {"version": "2.1", "parked": [c09.A, c09.B], "senders": [[c09.B], [c09.C]]},
+        {"version": "2.0", "parked": [c09.I, c09.A], "senders": [[c09.I], [c09.A]]},
+    ]
+    res = explore.explore(ctx, c09.MOD, cfgs, 2)
+    viols = []
+    for v in res["violations"]:
+        if v.key.startswith("C09|lost-update") or v.key.startswith("C09|task-raised") or v.key.startswith("C09|hang"):
+            viols.append(core.Violation("C12|race|" + v.key.split("|", 1)[1], "send during a wake-up flush: " + v.what, dict(v.replay, race=True)))
+    return res["executions"], viols
+
+
 def run(ctx: core.Ctx) -> core.Report:
     jobs = [(v, d) for v in R.VERSIONS for d in DESTS]
     res = core.pmap(job, jobs, ctx.workers, chunksize=1)
     total = sum(r[0] for r in res)
     viols = [core.Violation(k, w, rep) for r in res for k, w, rep in r[1]]
+    nrace, rviols = race_pass(ctx)
+    total += nrace
+    viols += rviols
     cs = cases("2.2")
     cov = {
         "evaluations": total,
         "distinct_nontrivial": total,
-        "rule": "five versions x {presentation,set,req} types 0-60, internal types -1..41, stream types -1..8 (codec-accepted combinations only) x message_buffer default/True/False x destination unknown/awake/sleeping, each on a fresh real gateway; every case is distinct; plus six non-message objects per (version, destination); plus 69 sequences of 2-4 sends (all ordered pairs of 8 message kinds, repeats) per (version, buffering, destination)",
+        "rule": "five versions x {presentation,set,req} types 0-60, internal types -1..41, stream types -1..8 (codec-accepted combinations only) x message_buffer default/True/False x destination unknown/awake/sleeping, each on a fresh real gateway; every case is distinct; plus six non-message objects per (version, destination); plus 69 sequences of 2-4 sends (all ordered pairs of 8 message kinds, repeats) per (version, buffering, destination); plus every schedule with <= 2 early firings of three send-during-flush scenarios",
         "exhaustive": True,
         "bounds": {"messages_per_version": len(cs), "buffers": 3, "destinations": 3},
         "samples": [list(cs[ctx.seed % len(cs)]), list(cs[-1]), "invalid"],
@@ -223,6 +247,13 @@ def run(ctx: core.Ctx) -> core.Report:
 
 
 def replay(data: dict) -> dict:
+    if data.get("race"):
+        from .. import explore
+        from . import c09
+
+        r = explore.replay(c09.MOD, data)
+        r["violated"] = any(x["key"].split("|")[1] in ("lost-update", "hang") or x["key"].startswith("C09|task-raised") for x in r["violations"])
+        return r
     if data.get("nonmsg"):
         return {"violated": True, "note": "non-message case; rerun the check"}
     if "seq" in data:
